@@ -41,6 +41,10 @@ def finish(a):
     d = P.case(vg=True, vc="control", state="vec2", **a)
     d["scales"] = sc
     d["cons"] = [P.con("bc0", scale=scon), P.con("x_le", scale=scon), P.con("xu_between", scale=scon), P.con("x_vec_ge", scale=scon), P.con("x_vec_mixed", scale=scon), P.con("x_vec_mixed_lb", scale=scon), P.con("vc_ge")]
+    # scaled constraints on the finer grids (every call site that forwards scale=)
+    d["cons"].append(P.con("x_le", grid="integrator", scale=scon))
+    if a["method"] == "DC":
+        d["cons"].append(P.con("xu_between", grid="integrator_roots", scale=scon))
     d["obj"] = ["mayer_tf", "integral", "vg", "integral_vc"] + (["int_z"] if a["alg"] else [])
     d["init"] = [["x", "vec", [0.8, 0.8]], ["u", "const", -0.3], ["vg", "const", 0.6], ["vc", "const", 0.45]] + ([["z", "const", 0.7]] if a["alg"] else [])
     return d
